@@ -1,6 +1,6 @@
 (* Entry points of the extracted model: one number per model function. *)
 From Coq Require Import ZArith List.
-From Tdda Require Import Base.Sexp RefTest.Argv RefTest.Tagged Serial.DateFmt RefTest.CheckStrings RefTest.Artefacts RefTest.Regen Constraints.Model Constraints.Detect Constraints.Serialise Constraints.Cli Rexpy.Coverage.
+From Tdda Require Import Base.Sexp RefTest.Argv RefTest.Tagged Serial.DateFmt RefTest.CheckStrings RefTest.Artefacts RefTest.Regen Constraints.Model Constraints.Detect Constraints.Serialise Constraints.Cli Rexpy.Coverage Rexpy.Wire.
 Import ListNotations.
 Open Scope Z_scope.
 
@@ -21,5 +21,11 @@ Definition dispatch (n : Z) (s : sexp) : sexp :=
   | 13 => cli_entry s
   | 14 => coverage_entry s
   | 15 => terminate_entry s
+  | 16 => rexpy_entry s
+  | 17 => catsem_entry s
+  | 18 => coarse_entry s
+  | 19 => catre_entry s
+  | 20 => escape_entry s
+  | 21 => batch_entry s
   | _ => L [A (-1)]
   end.
